@@ -402,7 +402,7 @@ PROPS = {
     ),
     "C10": dict(
         module="YkProps.C10",
-        leancheck=["YkModel.AppFsm", "YkProps.C10"],
+        leancheck=["YkModel.AppFsm", "YkModel.CoreOps2", "YkModel.CoreRun", "YkProofs.Core2Life", "YkProofs.Core2LifeA", "YkProofs.Core2LifeB", "YkProofs.Core2LifeC", "YkProofs.Core2LifeD", "YkProofs.Core2LifeE", "YkProofs.Core2LifeRun", "YkProofs.Core2LifeEx", "YkProps.C10"],
         runs=[dict(comp="core", quick=720, thorough=9000, extra=["-mode", "mixed"])],
         classify=cls_both("C10"),
         nontrivial=lambda line: '"op":"reset"' not in line,
@@ -445,7 +445,7 @@ PROPS = {
     ),
     "C06": dict(
         module="YkProps.C06",
-        leancheck=['YkModel.Reserve', 'YkProofs.Reserve', 'YkModel.CoreOps2', 'YkProofs.Core2Swap', 'YkProofs.Core2Repl', 'YkProps.C06'],
+        leancheck=['YkModel.Reserve', 'YkProofs.Reserve', 'YkModel.CoreOps2', 'YkProofs.Core2Swap', 'YkProofs.Core2Repl', 'YkProofs.Core2Life', 'YkProofs.Core2LifeA', 'YkProofs.Core2LifeB', 'YkProofs.Core2LifeC', 'YkProofs.Core2LifeD', 'YkProofs.Core2LifeE', 'YkProofs.Core2LifeRun', 'YkProofs.Core2LifeEx', 'YkProps.C06'],
         runs=[dict(comp="core", quick=720, thorough=9000, extra=["-mode", "mixed"])],
         classify=cls_tagged("C06"),
         nontrivial=lambda line: '"op":"reset"' not in line,
